@@ -142,14 +142,21 @@ func verif_C02_timeout() {
 	msg := "ab\r\nMAIL FROM:<bait@v>\r\ncd\r\n.\r\n"
 	tail := "MAIL FROM:<marker@v>\r\n"
 	at := nondetInt(0, len(msg)-1) // the message octet in front of which the deadline expires
-	readAll := nondetBool()
+	readMode := verifChoice(3)     // 0 everything, 1 two octets, 2 nothing at all: refuses at once
+	readAll := readMode == 0
+	// the per-recipient delivery runs beside the command loop: let the
+	// scheduler interleave them
+	verifPreemptBound(verifBound(1, 2))
 	var rerr error
 	be := &vbackend{lmtpSession: mode == 2}
 	consume := func(r io.Reader) error {
-		if readAll {
+		switch readMode {
+		case 0:
 			_, rerr = verifReadAll(r, 3)
-		} else {
+		case 1:
 			_, rerr = r.Read(make([]byte, 2))
+		case 2:
+			return verifErrBackend()
 		}
 		if rerr != nil && rerr != io.EOF {
 			return rerr
@@ -157,7 +164,13 @@ func verif_C02_timeout() {
 		return nil
 	}
 	be.dataFn = func(_ *vsession, r io.Reader) error { return consume(r) }
-	be.lmtpFn = func(_ *vsession, r io.Reader, st StatusCollector) error { return consume(r) }
+	be.lmtpFn = func(_ *vsession, r io.Reader, st StatusCollector) error {
+		if readMode == 2 {
+			// gives the recipient its verdict right away
+			st.SetStatus("r@v", verifErrBackend())
+		}
+		return consume(r)
+	}
 	s, _ := verifServer(be)
 	s.LMTP = mode != 0
 	s.ReadTimeout = time.Second
@@ -167,7 +180,7 @@ func verif_C02_timeout() {
 	s.handleConn(c)
 	verifSettle()
 	reps, wf := verifParseReplies(vc.out)
-	verifObserve("c02to", mode, at, readAll, wf, len(reps), len(be.trace), rerr == io.EOF)
+	verifObserve("c02to", mode, at, readMode)
 	verifAssert(wf, "C02.timeout-replies-wellformed")
 	verifAssert(be.find("Mail", "bait@v") < 0, "C02.timeout-no-message-octet-executed")
 	if readAll {
